@@ -442,6 +442,76 @@ func main() {
 			}
 		}
 	}
+	// the cut templates again with LARGE frames outstanding: cuts at the 4 KiB boundaries inside them and at their ends
+	for ci := 0; ci < 4; ci++ {
+		conf := sconf{proto: []int{4, 2, 3, 4}[ci], coal: ci%2 == 1, wt: ci/2 == 1}
+		hl := memcluster.HeaderLen(conf.proto)
+		for bi, big := range []int{4096, 65537} {
+			tot := [][]int{{big, 120, 4097, 30}, {4095, big, 64, 30}}[bi]
+			conf.sizes = nil
+			for i, t := range tot {
+				conf.sizes = append(conf.sizes, padFor(conf.proto, i+1, t))
+			}
+			for cf := 1; cf <= 3; cf++ {
+				offs := []int{hl, 4095, 4096, 4097, tot[cf-1] - 1, tot[cf-1]}
+				for oi, o := range offs {
+					if o > tot[cf-1] {
+						continue
+					}
+					kinds := []string{errKinds[(ci+cf+oi)%len(errKinds)]}
+					if tier == "thorough" {
+						kinds = errKinds
+					}
+					for _, kind := range kinds {
+						sop, ans, top, cls, ok := runTemplate(conf, cf, o, kind)
+						if strings.HasPrefix(sop, "fatal") {
+							fmt.Fprintln(os.Stderr, "c07:", sop)
+							os.Exit(3)
+						}
+						if !ok {
+							continue
+						}
+						if sop != "" {
+							out.Case(sop, ans, cls+"/large", true)
+						}
+						out.Case(top, "accept", "trace2", true)
+					}
+				}
+			}
+		}
+	}
+	// size templates: a frame of every size class held mid-frame while others are started / the flush timer fires
+	bigs := []int{100, 4095, 4096, 4097, 8191, 8192, 16384, 65537, 1 << 20}
+	ti := 0
+	for ci := 0; ci < 4; ci++ {
+		conf := sconf{proto: []int{4, 2, 3, 4}[ci], coal: ci%2 == 1, wt: ci/2 == 1}
+		hl := memcluster.HeaderLen(conf.proto)
+		for _, big := range bigs {
+			orders := [][]int{{big, 90, 0}, {60, big, 0}, {big, big + 1, 70}}
+			for oi, totals := range orders {
+				holds := []int{0, 1, hl, 4095, 4096, totals[0] - 1}
+				for hi, hold := range holds {
+					ti++
+					if tier != "thorough" && big != 4096 && (hi+oi+ci)%3 != 0 { // quick: every hold position for 4096, a third of them for the others
+						continue
+					}
+					kind := "ok"
+					if ti%5 == 0 && hold > 0 {
+						kind = errKinds[(ti/5)%len(errKinds)]
+					}
+					sop, ans, top, cls := runSizeTemplate(conf, totals, hold, kind)
+					if strings.HasPrefix(sop, "fatal") {
+						fmt.Fprintln(os.Stderr, "c07:", sop)
+						os.Exit(3)
+					}
+					if sop != "" {
+						out.Case(sop, ans, cls, true)
+					}
+					out.Case(top, "accept", "trace2", true)
+				}
+			}
+		}
+	}
 	out.Close(nil)
 }
 
